@@ -222,10 +222,10 @@ def llProdsOk (T : LLTables) : Bool :=
   T.prods.all fun pr => pr.lhs < T.dfas.length &&
     pr.rhsRev.all fun s => match s with
       | .n a => a < T.dfas.length
-      | .t _ => true
+      | .t a => a != 0
       | .e _ => false
 def llDfasOk (T : LLTables) : Bool :=
-  T.dfas.all fun d => sortedTrans d.trans &&
+  T.dfas.all fun d => sortedTrans d.trans && (d.prod0 ≤ -1 || d.trans.isEmpty) &&
     (dfaProds d).all fun p => p ≤ -1 || p.toNat < T.prods.length
 
 def kindChecks (d : ParserDesc) : List (Option String) :=
